@@ -499,7 +499,7 @@ def rule_r8(ctx):
                   construct=f"value_info table with {k}-wins precedence in {f.local}")
 
 
-def rule_r9(ctx):
+def rule_r9(ctx, rule="R9", consequence=None):
     m = ctx.repo.modules[SERDE]
     applier = m.functions.get("deserialize_value_info_proto")
     ctx.require(applier is not None and len(applier.params) >= 2, "deserialize_value_info_proto not found")
@@ -524,13 +524,17 @@ def rule_r9(ctx):
                 n += 1
                 restored = any(isinstance(i, ast.If) and i.lineno > applies[0].lineno and norm(i.test) == f"{v}.{fld} is None" and any(
                     isinstance(st, ast.Assign) and any(norm(t) == f"{v}.{fld}" for t in st.targets) for st in i.body) for i in own_nodes(f.node))
-                ctx.check("R9", f"{f.local}: `{v}.{fld}` taken from the tensor is re-established when the value_info leaves it None", restored, f, applies[0],
+                ctx.check(rule, f"{f.local}: `{v}.{fld}` taken from the tensor is re-established when - and only when - the value_info leaves it None", restored, f, applies[0],
                           f"`{v}` is built with its {fld} taken from the tensor, then `{norm(applies[0])[:70]}` assigns `{fld}` unconditionally (None for an entry without a "
-                          "type) and nothing restores it: serialize(deserialize(P)) drops the initializer's value_info, and the next round trip re-creates it from the "
-                          "tensor - the serialized form is not a fixed point",
+                          f"type) and no `if {v}.{fld} is None:` restores it (a wider test also replaces what the entry did declare): " + (consequence or
+                          "serialize(deserialize(P)) drops the initializer's value_info, and the next round trip re-creates it from the "
+                          "tensor - the serialized form is not a fixed point"),
                           how="Value(...) pre-populated with type/shape, later passed to the value_info applier; `if v.F is None: v.F = …` after the call",
                           construct=f"pre-populated {fld} erased by an empty value_info in {f.local}")
-    ctx.require(n >= 2, f"only {n} pre-populated fields found that a value_info entry can overwrite")
+    ctx.require(n >= (2 if rule == "R9" else 1) or rule != "R9", f"only {n} pre-populated fields found that a value_info entry can overwrite")
+    if n == 0:
+        ctx.ob(rule, "no pre-populated field is overwritten by the value_info applier (nothing to restore)", True, nontrivial=False)
+    return n
 
 
 def rule_r10(ctx, ef):
